@@ -144,7 +144,10 @@ def run_case(case):
                 if y.size:
                     y.reshape(-1)[int(rng.integers(y.size))] = 1 if dt.kind != "c" else 1j
             if case.get("mag", 1) != 1:
-                x, y = x * x.dtype.type(case["mag"]), y * y.dtype.type(case["mag"])
+                # (np.asarray: arithmetic on 0-d arrays returns scalars, which an operator
+                # would take for a scaling)
+                x, y = np.asarray(x * x.dtype.type(case["mag"])), \
+                    np.asarray(y * y.dtype.type(case["mag"]))
             STATE.peak = 0.0
             Ax = A(x)
             AHy = AH(y)
